@@ -13,6 +13,8 @@ pub enum RTy {
     BSet(Box<RTy>),
     Res1(Box<RTy>),
     Ref(Box<RTy>),
+    /// a reference with an explicit lifetime (`&'a T`): the same type, another spelling
+    RefL(Box<RTy>),
     HMap(Box<RTy>, Box<RTy>),
     BMap(Box<RTy>, Box<RTy>),
     Res2(Box<RTy>, Box<RTy>),
@@ -36,6 +38,7 @@ impl RTy {
             RTy::BSet(t) => json!({"k": "bset", "t": t.to_json()}),
             RTy::Res1(t) => json!({"k": "res1", "t": t.to_json()}),
             RTy::Ref(t) => json!({"k": "ref", "t": t.to_json()}),
+            RTy::RefL(t) => json!({"k": "ref", "t": t.to_json(), "lt": true}),
             RTy::HMap(a, b) => json!({"k": "hmap", "a": a.to_json(), "b": b.to_json()}),
             RTy::BMap(a, b) => json!({"k": "bmap", "a": a.to_json(), "b": b.to_json()}),
             RTy::Res2(a, b) => json!({"k": "res2", "a": a.to_json(), "b": b.to_json()}),
@@ -54,7 +57,7 @@ impl RTy {
             "hset" => RTy::HSet(sub("t")?),
             "bset" => RTy::BSet(sub("t")?),
             "res1" => RTy::Res1(sub("t")?),
-            "ref" => RTy::Ref(sub("t")?),
+            "ref" => if v.get("lt").and_then(|x| x.as_bool()).unwrap_or(false) { RTy::RefL(sub("t")?) } else { RTy::Ref(sub("t")?) },
             "hmap" => RTy::HMap(sub("a")?, sub("b")?),
             "bmap" => RTy::BMap(sub("a")?, sub("b")?),
             "res2" => RTy::Res2(sub("a")?, sub("b")?),
@@ -82,6 +85,7 @@ impl RTy {
             RTy::BSet(t) => format!("BTreeSet<{}>", t.render()),
             RTy::Res1(t) => format!("Result<{}>", t.render()),
             RTy::Ref(t) => format!("&{}", t.render()),
+            RTy::RefL(t) => format!("&'a {}", t.render()),
             RTy::HMap(a, b) => format!("HashMap<{}, {}>", a.render(), b.render()),
             RTy::BMap(a, b) => format!("BTreeMap<{}, {}>", a.render(), b.render()),
             RTy::Res2(a, b) => format!("Result<{}, {}>", a.render(), b.render()),
@@ -97,7 +101,7 @@ impl RTy {
     pub fn depth(&self) -> usize {
         match self {
             RTy::Prim(_) | RTy::Unit | RTy::Named(_) => 0,
-            RTy::Opt(t) | RTy::Vec(t) | RTy::HSet(t) | RTy::BSet(t) | RTy::Res1(t) | RTy::Ref(t) => 1 + t.depth(),
+            RTy::Opt(t) | RTy::Vec(t) | RTy::HSet(t) | RTy::BSet(t) | RTy::Res1(t) | RTy::Ref(t) | RTy::RefL(t) => 1 + t.depth(),
             RTy::HMap(a, b) | RTy::BMap(a, b) | RTy::Res2(a, b) => 1 + a.depth().max(b.depth()),
             RTy::Tup(ts) => 1 + ts.iter().map(|t| t.depth()).max().unwrap_or(0),
         }
@@ -140,6 +144,7 @@ pub fn enumerate(d: usize, lv: &[RTy], pair_cap: usize) -> Vec<RTy> {
         out.push(RTy::BSet(b()));
         out.push(RTy::Res1(b()));
         out.push(RTy::Ref(b()));
+        out.push(RTy::RefL(b()));
         out.push(RTy::Res2(b(), Box::new(RTy::Prim("String".into()))));
         out.push(RTy::Tup(vec![t.clone()]));      // the one-element tuple `(T,)`
     }
@@ -170,7 +175,7 @@ pub fn random(rng: &mut Rng, depth: usize) -> RTy {
         4 => RTy::HSet(sub(rng)),
         5 => RTy::BSet(sub(rng)),
         6 => RTy::Res1(sub(rng)),
-        7 => RTy::Ref(sub(rng)),
+        7 => if rng.chance(1, 3) { RTy::RefL(sub(rng)) } else { RTy::Ref(sub(rng)) },
         8 => RTy::HMap(sub(rng), sub(rng)),
         9 => RTy::BMap(sub(rng), sub(rng)),
         10 => RTy::Res2(sub(rng), sub(rng)),
@@ -202,6 +207,7 @@ pub fn random_named(rng: &mut Rng, depth: usize, names: &[&str]) -> RTy {
             RTy::BSet(x) => RTy::BSet(b(x, rng)),
             RTy::Res1(x) => RTy::Res1(b(x, rng)),
             RTy::Ref(x) => RTy::Ref(b(x, rng)),
+            RTy::RefL(x) => RTy::RefL(b(x, rng)),
             RTy::HMap(x, y) => { let x2 = b(x, rng); RTy::HMap(x2, b(y, rng)) }
             RTy::BMap(x, y) => { let x2 = b(x, rng); RTy::BMap(x2, b(y, rng)) }
             RTy::Res2(x, y) => { let x2 = b(x, rng); RTy::Res2(x2, b(y, rng)) }
